@@ -267,11 +267,20 @@ def run(tier):
         fields = [fl["name"] for fl in fx.adts[svs[0]]["variants"][0]["fields"]]
         for g in gens:
             reads = set()
-            for bi, kind, pl, sp in M.all_places(g):
-                if kind in ("r", "b"):
-                    for a, v, n in F.place_fields(pl):
-                        if a.endswith("SavedVmState"):
-                            reads.add(n)
+            # the function itself, its closures, and helpers it hands the yielded state to (`park_generator(&gen_state, &mut vm_state, ..)`)
+            bodies = list(fx.body_group(g))
+            for g0 in list(bodies):
+                for _, t0 in g0.calls():
+                    h = fx.fns.get(t0[1].get("d") or "")
+                    if h is not None and t0[1].get("local") and any("SavedVmState" in fx.tys(x) for x in h.sig[:-1]) and h not in bodies \
+                            and not h.path.endswith(("save_state", "from_saved_state")):
+                        bodies.append(h)
+            for g0 in bodies:
+                for bi, kind, pl, sp in M.all_places(g0):
+                    if kind in ("r", "b"):
+                        for a, v, n in F.place_fields(pl):
+                            if a.endswith("SavedVmState"):
+                                reads.add(n)
             aggs_ = [(bi, s_) for bi, bl in enumerate(g.blocks) for s_ in bl["s"]
                      if s_[0] == "a" and s_[2][0] == "agg" and s_[2][1].get("p", "").endswith("SavedVmState")]
             for fld in fields:
@@ -312,6 +321,11 @@ def run(tier):
             if not any(t[1].get("d") == fh[0] for _, t in g.calls()):
                 continue
             walks = any(any(x[2] == "trampoline_stack" for x in F.place_fields(pl)) for _, kind, pl, _sp in M.all_places(g))
+            if not walks:
+                # a helper that is only the first step (this frame) of a function that goes on to the callers' frames
+                walkers = {q for q, h in fx.fns.items() if not h.derived and any(any(x[2] == "trampoline_stack" for x in F.place_fields(pl))
+                                                                             for _, kind, pl, _sp in M.all_places(h))}
+                walks = M.only_called_from(fx, p, walkers)
             ck.instance("R7.injected-throw-parity", p, F.short_span(g.span), ok=walks)
             if not walks:
                 ck.finding("R7.injected-throw-parity", "R7.injected-throw-parity/%s" % p, F.short_span(g.span),
